@@ -306,12 +306,29 @@ func c11c(c *Ctx, r *Report, st *Staged) {
 			// filter: TERMID and not a literal's temp name
 			filt := ""
 			var alt *SAlt
+			// the guard of the emission: the outermost conditional and, when its taken arm is nothing but another
+			// conditional (nested ifs), the conjunction with that one, and so on
 			walkShape(sh, func(x Shape) {
-				if a, ok := x.(*SAlt); ok {
-					filt = a.CondPath
+				if a, ok := x.(*SAlt); ok && alt == nil {
 					alt = a
 				}
 			})
+			if alt != nil {
+				filt = alt.CondPath
+				for {
+					var inner *SAlt
+					walkShape(alt.Then, func(x Shape) {
+						if a, ok := x.(*SAlt); ok && inner == nil {
+							inner = a
+						}
+					})
+					if inner == nil || shapeString(alt.Then) != shapeString(inner) || strings.TrimSpace(shapeString(alt.Else)) != "" {
+						break
+					}
+					filt = "(" + filt + ") && (" + inner.CondPath + ")"
+					alt = inner
+				}
+			}
 			// exactly: IDTyp == TERMID ∧ ¬TestPrefix(Name) of the identifier whose constant is emitted, emitting arm = then
 			filtOK := false
 			if alt != nil && nameH != nil {
